@@ -23,6 +23,34 @@ def keyless(e):
     return "%s:%s" % (e[0], e[1])
 
 
+def soundness_of_detection(run, f, name):
+    """The deadlock-detection feature is behaviour-neutral for cycle-free programs iff its panic
+    is sound and the graph keeps no residue: that is property C15, whose structural rules are
+    therefore evaluated here as well (O15.5 is reported through the O18.3 key above)."""
+    import deadlock
+    shim = Run("C15", run.tier, run.seed)
+    shim.cur_config = name
+    det = deadlock.get(f)
+    if det.errors or det.body is None:
+        run.fail("O18.3", "detection-anchor", "; ".join(det.errors) or "no detection body")
+        return
+    try:
+        c15.edge_iff_guard(shim, f, det)
+        c15.guard_lives_across_awaits(shim, f, det)
+        c15.destructor(shim, f, det)
+        c15.panic_condition(shim, f, det)
+    except Exception as e:      # fail closed
+        shim.fail("ENGINE", "c15-in-c18:%s" % type(e).__name__, "rule engine raised %r" % (e,))
+    n_ok = 0
+    for o in shim.obligations:
+        if o["ok"]:
+            n_ok += 1
+        else:
+            run.fail("O18.3", "detection-unsound:%s@%s" % (o["rule"], o["anchor"]),
+                     "with [%s] a cycle-free program can be affected by the detection bookkeeping: %s" % (name, o["msg"]), loc=o["loc"])
+    run.ok("O18.3", "detection-soundness-rules", "%d C15 soundness / residue obligations hold under [%s]" % (n_ok, name), nontrivial=False)
+
+
 def audit_erased(run, f, allow, name, feature_only=()):
     """O18.4: the crate-local functions the allow-list erases as 'observation only' must
     themselves contain nothing behaviour-relevant: no channel operation, spawn, sleep, lock
@@ -122,4 +150,6 @@ def run(run):
                     run.ok("O18.2", "skeleton-equal:%s" % short, "%d events, %d flows equal to default" % (len(n1), len(e1)), nontrivial=len(n1) > 1)
         run.sample({"rule": "O18.2", "config": name, "families_compared": len(roots0), "differences": ndiff, "functions_only_with_feature": len(roots1 - set(roots0))})
         audit_erased(run, f1, a1, name, sorted(roots1 - set(roots0)))
+        if "deadlock-detection" in f1.features:
+            soundness_of_detection(run, f1, name)
     run.cur_config = None
